@@ -1,12 +1,14 @@
 #!/bin/sh
-# keep_r2.sh <PROP>...: for round-2 seeds in /tmp/seed/out/<PROP>r2/{A,B} (already confirmed by confirm_seed.sh): run the quick check
-# with the patch applied and file the seed as seeded/<PROP>-C|D when it is reported. Never run concurrently with other checks.
+# keep_r2.sh <PROP>...: for later-round seeds in /tmp/seed/out/<PROP>$ROUND/{A,B} (ROUND=r2 -> variants C D, ROUND=r3 -> E F; already
+# confirmed by confirm_seed.sh): run the quick check against the patched scratch copy and file the seed as seeded/<PROP>-<variant>
+# when it is reported.
+ROUND=${ROUND:-r2}
+case $ROUND in r2) NAMES="C D";; r3) NAMES="E F";; *) NAMES="G H";; esac
 cd /verif
-for p in "$@"; do i=0; for v in A B; do nv=$(echo "C D" | cut -d' ' -f$((i+1))); i=$((i+1))
-  [ -f /tmp/seed/out/${p}r2/$v/confirm.txt ] || { echo "$p-$nv: not confirmed yet"; continue; }
-  out=$(sh tools/try_seed.sh /tmp/seed/out/${p}r2/$v/patch.diff $p 2>&1)
+for p in "$@"; do i=0; for v in A B; do nv=$(echo "$NAMES" | cut -d' ' -f$((i+1))); i=$((i+1))
+  [ -f /tmp/seed/out/${p}${ROUND}/$v/confirm.txt ] || { echo "$p-$nv: not confirmed yet"; continue; }
+  out=$(sh tools/try_seed.sh /tmp/seed/out/${p}${ROUND}/$v/patch.diff $p 2>&1)
   line=$(echo "$out" | grep -a -m1 "unlisted failure\|regression\|uncompil" | cut -c1-260); nviol=$(echo "$out" | grep -ac VIOLATION)
   echo "$p-$nv: viol=$nviol $line"
-  if [ "$nviol" -gt 0 ]; then python3 tools/keep_seed.py $p $nv $p "quick tier reports VIOLATION; first: $line" ${p}r2/$v; fi
+  if [ "$nviol" -gt 0 ]; then python3 tools/keep_seed.py $p $nv $p "quick tier reports VIOLATION; first: $line" ${p}${ROUND}/$v; fi
 done; done
-git -C /repo status --short
